@@ -505,38 +505,66 @@ O(id='NativeEnumerated_uper', props=['C01', 'C02', 'C08', 'C13'], kind='bounded'
 STUBM = 'member type is a harness stub (2-octet restartable value: RC_WMORE until complete, RC_FAIL on 0xFF); descriptor laid out by hand in the shape asn1c emits'
 SQO = dict(harness='harness/h_seq_oer.c', units=[SK + 'constr_SEQUENCE_oer.c', SK + 'constr_SEQUENCE.c'],
            link=[SK + 'constr_SEQUENCE.c', SK + 'asn_bit_data.c', SK + 'oer_support.c', SK + 'oer_decoder.c'],
-           fp_restrict=[(r'oer_decoder\)$', ['sv_oer']), (r'free_struct\)$', ['sv_free'])], trusted=[STUBM])
-for _e, _n, _u in ((0, 8, 6), (1, 10, 12)):
+           fp_restrict=[(r'oer_decoder\)$', ['sv_oer']), (r'free_struct\)$', ['sv_free'])], trusted=[STUBM, 'stubs/memcpy16.c replaces the CBMC memcpy model'], stubs=['stubs/memcpy16.c'])
+for _e, _n, _u in ((0, 8, 11), (1, 10, 13)):
     _bd = 'SEQUENCE { a, b OPTIONAL, c%s } of stub members; every input of at most %d octets%s' % (', ..., d' if _e else '', _n, ' whose extension-addition bitmap is one octet' if _e else '')
-    O(id='SEQUENCE_decode_oer.e%d' % _e, props=['C04', 'C14', 'C03'], kind='bounded', tier='experimental', entry='h_SEQUENCE_decode_oer', functions=['SEQUENCE_decode_oer', 'SEQUENCE_free', 'asn_bit_data_new_contiguous', 'asn_get_few_bits', 'oer_open_type_get', 'oer_open_type_skip', 'oer_fetch_length'],
-      defines=['VF_EXT=%d' % _e, 'VF_N=%d' % _n], unwind=_u, cbmc=['--unwindset', 'asn_get_few_bits:3,h_SEQUENCE_decode_oer.0:%d' % (_n + 2), '--malloc-may-fail', '--malloc-fail-null', '--memory-leak-check'],
-      bound=_bd + ' in an exact-size heap buffer; every allocation may fail', min_props=80, timeout=1500, **SQO)
+    O(id='SEQUENCE_decode_oer.e%d' % _e, props=['C04', 'C14', 'C03'], kind='bounded', tier='experimental' if _e else 'quick', entry='h_SEQUENCE_decode_oer', functions=['SEQUENCE_decode_oer', 'SEQUENCE_free', 'asn_bit_data_new_contiguous', 'asn_get_few_bits', 'oer_open_type_get', 'oer_open_type_skip', 'oer_fetch_length'],
+      defines=['VF_EXT=%d' % _e, 'VF_N=%d' % _n], unwind=_u, cbmc=['--unwindset', 'asn_get_few_bits:3,memcpy.0:18', '--malloc-may-fail', '--malloc-fail-null', '--memory-leak-check'],
+      bound=_bd + ' in an exact-size heap buffer; every allocation may fail', min_props=80, timeout=1500, mem_gb=30, **SQO)
     O(id='SEQUENCE_decode_oer.chunk2.e%d' % _e, props=['C05'], kind='bounded', tier='experimental', entry='h_SEQUENCE_decode_oer_chunked', functions=['SEQUENCE_decode_oer', 'asn_get_few_bits', 'asn_get_undo', 'oer_open_type_get', 'oer_open_type_skip'],
-      defines=['VF_EXT=%d' % _e, 'VF_N=%d' % _n], unwind=_u, cbmc=['--unwindset', 'asn_get_few_bits:3', '--no-malloc-may-fail'],
-      bound=_bd + '; every split point k (two chunks)', min_props=80, timeout=1500, **SQO)
+      defines=['VF_EXT=%d' % _e, 'VF_N=%d' % _n], unwind=_u, cbmc=['--unwindset', 'asn_get_few_bits:3,memcpy.0:18', '--no-malloc-may-fail'],
+      bound=_bd + '; every split point k (two chunks)', min_props=80, timeout=1500, mem_gb=30, **SQO)
 
 SFO = dict(harness='harness/h_setof_oer.c', units=[SK + 'constr_SET_OF_oer.c', SK + 'constr_SET_OF.c', SK + 'asn_SET_OF.c'],
            link=[SK + 'constr_SET_OF.c', SK + 'asn_SET_OF.c', SK + 'oer_support.c'],
            fp_restrict=[(r'oer_decoder\)$', ['sv_oer']), (r'free_struct\)$', ['sv_free'])], trusted=[STUBM, 'stubs/realloc64.c replaces the CBMC realloc model'], stubs=['stubs/realloc64.c'])
-O(id='SET_OF_decode_oer.b8', props=['C04', 'C14', 'C15'], kind='bounded', tier='experimental', entry='h_SET_OF_decode_oer', functions=['SET_OF_decode_oer', 'oer_fetch_quantity', 'asn_set_add', 'SET_OF_free', 'asn_set_empty'],
-  defines=['VF_N=8'], unwind=5, cbmc=['--unwindset', 'oer_fetch_quantity.0:10,oer_fetch_quantity.1:10,h_SET_OF_decode_oer.0:10', '--malloc-may-fail', '--malloc-fail-null', '--memory-leak-check'],
+O(id='SET_OF_decode_oer.b8', props=['C04', 'C14', 'C15'], kind='bounded', entry='h_SET_OF_decode_oer', functions=['SET_OF_decode_oer', 'oer_fetch_quantity', 'asn_set_add', 'SET_OF_free', 'asn_set_empty'],
+  defines=['VF_N=8'], unwind=6, cbmc=['--unwindset', 'oer_fetch_length.0:10,oer_fetch_length.1:10,oer_fetch_quantity.0:10,oer_fetch_quantity.1:10,h_SET_OF_decode_oer.0:11,h_SET_OF_decode_oer.1:11,realloc.0:66', '--malloc-may-fail', '--malloc-fail-null', '--memory-leak-check'],
   bound='SET OF stub members; every input of at most 8 octets in an exact-size heap buffer; every allocation may fail', min_props=80, timeout=900, **SFO)
 O(id='SET_OF_decode_oer.chunk2', props=['C05'], kind='bounded', tier='experimental', entry='h_SET_OF_decode_oer_chunked', functions=['SET_OF_decode_oer', 'oer_fetch_quantity', 'asn_set_add'],
-  defines=['VF_N=8'], unwind=5, cbmc=['--unwindset', 'oer_fetch_quantity.0:10,oer_fetch_quantity.1:10', '--no-malloc-may-fail'], bound='every split point of every input of at most 8 octets (two chunks)', min_props=80, timeout=900, **SFO)
+  defines=['VF_N=8'], unwind=6, cbmc=['--unwindset', 'oer_fetch_length.0:10,oer_fetch_length.1:10,oer_fetch_quantity.0:10,oer_fetch_quantity.1:10,h_SET_OF_decode_oer.0:11,h_SET_OF_decode_oer.1:11,realloc.0:66', '--no-malloc-may-fail'], bound='every split point of every input of at most 8 octets (two chunks)', min_props=80, timeout=1800, mem_gb=30, **SFO)
 
 STUBT = 'member types are harness stubs (primitive TLV with the expected tag and one contents octet, stateless: RC_WMORE with consumed 0 until complete); descriptor laid out by hand in the shape asn1c emits'
 SQB = dict(harness='harness/h_seq_ber.c', units=[SK + 'constr_SEQUENCE.c', SK + 'ber_decoder.c', SK + 'ber_tlv_tag.c', SK + 'ber_tlv_length.c'],
            link=[SK + 'ber_decoder.c', SK + 'ber_tlv_tag.c', SK + 'ber_tlv_length.c'], stubs=['stubs/bsearch.c'],
            fp_restrict=[(r'ber_decoder\)$', ['sv_ber']), (r'free_struct\)$', ['sv_free']), (r'compar$', ['_t2e_cmp'])], trusted=[STUBT, 'stubs/bsearch.c'])
 for _v, _n, _d in ((0, 11, 'SEQUENCE { a [0] OPTIONAL, b CHOICE OPTIONAL (untagged: tag2el/bsearch path), c [2] }'), (1, 11, 'SEQUENCE { a [0] OPTIONAL, c [2], ..., b CHOICE OPTIONAL }, unknown additions primitive')):
-    O(id='SEQUENCE_decode_ber.v%d' % _v, props=['C03', 'C04', 'C14'], kind='bounded', tier='experimental', entry='h_SEQUENCE_decode_ber',
+    O(id='SEQUENCE_decode_ber.v%d' % _v, props=['C04', 'C14'], kind='bounded', tier='experimental', entry='h_SEQUENCE_decode_ber',
       functions=['SEQUENCE_decode_ber', 'ber_check_tags', 'ber_fetch_tag', 'ber_fetch_length', 'ber_skip_length', '_t2e_cmp', 'SEQUENCE_free'],
-      defines=['VF_V=%d' % _v, 'VF_N=%d' % _n], unwind=9, cbmc=['--unwindset', 'h_SEQUENCE_decode_ber.0:%d,h_SEQUENCE_decode_ber.1:%d,ber_skip_length:2' % (_n + 2, _n + 2), '--malloc-may-fail', '--malloc-fail-null', '--memory-leak-check'],
+      defines=['VF_V=%d' % _v, 'VF_N=%d' % _n], unwind=_n + 3, cbmc=['--unwindset', 'ber_skip_length:2', '--malloc-may-fail', '--malloc-fail-null', '--memory-leak-check'],
       bound=_d + '; every input of at most %d octets in an exact-size heap buffer; every allocation may fail' % _n, min_props=80, timeout=1800, **SQB)
-    O(id='SEQUENCE_decode_ber.chunk2.v%d' % _v, props=['C05'], kind='bounded', tier='experimental', entry='h_SEQUENCE_decode_ber_chunked',
+    O(id='SEQUENCE_decode_ber.chunk2.v%d' % _v, props=['C05', 'C03'], kind='bounded', tier='experimental', entry='h_SEQUENCE_decode_ber_chunked',
       functions=['SEQUENCE_decode_ber', 'ber_check_tags', 'ber_fetch_tag', 'ber_fetch_length', 'ber_skip_length', '_t2e_cmp'],
-      defines=['VF_V=%d' % _v, 'VF_N=%d' % _n], unwind=9, cbmc=['--unwindset', 'h_SEQUENCE_decode_ber_chunked.0:%d,ber_skip_length:2' % (_n + 2), '--no-malloc-may-fail'],
+      defines=['VF_V=%d' % _v, 'VF_N=%d' % _n], unwind=_n + 3, cbmc=['--unwindset', 'ber_skip_length:2', '--no-malloc-may-fail'],
       bound=_d + '; every split point k of every input of at most %d octets (two chunks)' % _n, min_props=80, timeout=1800, **SQB)
+
+SFB = dict(harness='harness/h_setof_ber.c', units=[SK + 'constr_SET_OF.c', SK + 'asn_SET_OF.c', SK + 'ber_decoder.c'],
+           link=[SK + 'asn_SET_OF.c', SK + 'ber_decoder.c', SK + 'ber_tlv_tag.c', SK + 'ber_tlv_length.c'], stubs=['stubs/realloc64.c'],
+           fp_restrict=[(r'ber_decoder\)$', ['sv_ber']), (r'free_struct\)$', ['sv_free'])], trusted=[STUBT, 'stubs/realloc64.c replaces the CBMC realloc model'])
+O(id='SET_OF_decode_ber.b8', props=['C04', 'C14', 'C15'], kind='bounded', entry='h_SET_OF_decode_ber', functions=['SET_OF_decode_ber', 'ber_check_tags', 'ber_fetch_tag', 'ber_fetch_length', 'asn_set_add', 'SET_OF_free', 'asn_set_empty'],
+  defines=['VF_N=8'], unwind=5, cbmc=['--unwindset', 'ber_fetch_tag.0:11,ber_fetch_length.0:11,h_SET_OF_decode_ber.0:11,h_SET_OF_decode_ber.1:11,realloc.0:66', '--malloc-may-fail', '--malloc-fail-null', '--memory-leak-check'],
+  bound='SET OF stub members; every input of at most 8 octets in an exact-size heap buffer; every allocation may fail', min_props=80, timeout=1800, **SFB)
+O(id='SET_OF_decode_ber.chunk2', props=['C05', 'C03'], kind='bounded', tier='experimental', entry='h_SET_OF_decode_ber_chunked', functions=['SET_OF_decode_ber', 'ber_check_tags', 'ber_fetch_tag', 'ber_fetch_length', 'asn_set_add'],
+  defines=['VF_N=8'], unwind=5, cbmc=['--unwindset', 'ber_fetch_tag.0:11,ber_fetch_length.0:11,h_SET_OF_decode_ber.0:11,h_SET_OF_decode_ber.1:11,realloc.0:66', '--no-malloc-may-fail'], bound='every split point of every input of at most 8 octets (two chunks)', min_props=80, timeout=1800, mem_gb=30, **SFB)
+
+SQE = dict(harness='harness/h_seq_enc.c', units=[SK + 'constr_SEQUENCE.c', SK + 'constr_SEQUENCE_oer.c', SK + 'der_encoder.c', SK + 'oer_encoder.c'],
+           link=[SK + 'constr_SEQUENCE.c', SK + 'der_encoder.c', SK + 'ber_tlv_tag.c', SK + 'ber_tlv_length.c', SK + 'asn_bit_data.c', SK + 'oer_encoder.c', SK + 'oer_support.c'],
+           fp_restrict=[(r'der_encoder\)$', ['sv_der']), (r'oer_encoder\)$', ['sv_oer']), (r'default_value_cmp\)$', ['d_default_cmp']), (r'::cb$|\.output\)$', ['vf_cb', 'oer__count_bytes'])],
+           trusted=['member type is a harness stub (DER: <tag> 01 v0, OER: v0 v1; v0 = 0xFF cannot be encoded); descriptor laid out by hand in the shape asn1c emits'])
+O(id='SEQUENCE_encode_der', props=['C02', 'C06', 'C07'], kind='bounded', entry='h_SEQUENCE_encode_der', functions=['SEQUENCE_encode_der', 'der_write_tags', 'der_write_TL'],
+  defines=['VF_CB_CAP=20'], unwind=22, cbmc=['--no-malloc-may-fail'], bound='SEQUENCE { a, b OPTIONAL, c, ..., d DEFAULT, e OPTIONAL } of stub members: every value and presence combination, every callback failure point', min_props=60, timeout=900, **SQE)
+O(id='SEQUENCE_encode_oer', props=['C02', 'C06', 'C07'], kind='bounded', entry='h_SEQUENCE_encode_oer', functions=['SEQUENCE_encode_oer', 'asn_put_few_bits', 'asn_put_aligned_flush', 'oer_open_type_put', 'oer_serialize_length'],
+  defines=['VF_CB_CAP=20'], unwind=22, cbmc=['--no-malloc-may-fail'], bound='as SEQUENCE_encode_der, callback never fails', min_props=60, timeout=900, **SQE)
+
+for _c in (0, 1, 2, 3):
+  O(id='SET_OF_encode_der.n%d' % _c, props=['C02', 'C06', 'C07', 'C14'], kind='bounded', entry='h_SET_OF_encode_der', harness='harness/h_setof_enc.c',
+    units=[SK + 'constr_SET_OF.c', SK + 'der_encoder.c'], link=[SK + 'asn_SET_OF.c', SK + 'der_encoder.c', SK + 'ber_tlv_tag.c', SK + 'ber_tlv_length.c'],
+    functions=['SET_OF_encode_der', 'SET_OF__encode_sorted', 'SET_OF__encode_sorted_free', '_el_addbytes', '_el_buf_cmp', 'der_write_tags'],
+    stubs=['stubs/qsort_gen.c', 'stubs/realloc64.c', 'stubs/memcpy16.c'], defines=['VF_CB_CAP=16', 'VF_COUNT=%d' % _c],
+    fp_restrict=[(r'der_encoder\)$', ['sv_der']), (r'::cb$', ['vf_cb', '_el_addbytes']), (r'compar$', ['_el_buf_cmp'])],
+    unwind=18, cbmc=['--unwindset', 'realloc.0:66,qsort.0:66', '--malloc-may-fail', '--malloc-fail-null', '--memory-leak-check'],
+    bound='lists of exactly %d stub elements' % _c + '  (encodings of 3 or 4 octets, delivered in two chunks); every order, every callback failure point, every allocation may fail',
+    trusted=['element type is a harness stub', 'stubs/qsort_gen.c, stubs/realloc64.c, stubs/memcpy16.c'], min_props=60, timeout=900)
 
 for _o in OBLIGATIONS:
     if _o.get('enforce') and _o.get('kind') in ('enforce', 'width') and _o.get('tier') == 'quick' and 'C19' not in _o['props']:
